@@ -97,6 +97,14 @@ def gen():
     with lib.Lock("coq." + AREA):
         rc, o = lib.sh([hb, "repo=" + os.path.abspath(lib.REPO), "out=" + os.path.join(d, "GenFuns.v"),
                         "sem=" + os.path.join(d, "GenSemCheck.v")], env=lib.go_env(), timeout=600)
+    # BridgeWild.v compares gen_blacklistedHeader with coq/C15/GenConsts.v, which c15gen regenerates from the
+    # same source: regenerate it here too, or a harmless reordering of the table breaks the tie of every
+    # consumer of Props_Gen_wild.v whose check does not run c15gen itself
+    g15, lg15 = lib.build_harness("c15gen")
+    if g15 is not None:
+        with lib.Lock("coq.C15"):
+            lib.sh([g15, "repo=" + os.path.abspath(lib.REPO), "out=" + os.path.join(lib.COQ, "C15", "GenConsts.v")],
+                   env=lib.go_env(), timeout=300)
     if rc != 0:
         return False, "gotrans refused the sources (outside the accepted Go subset) rc=%d:\n%s" % (rc, o)
     return True, o
